@@ -59,6 +59,8 @@ class SymKDTree(Proxy):
             raise Unsupported("kd-tree query with p/eps")
         if eps != 0 and not (not is_sym(k) and k == 1):
             raise Unsupported("approximate kd-tree query with k > 1")
+        if not (not is_sym(k) and k == 1) and not (not is_sym(distance_upper_bound) and distance_upper_bound == float("inf")):
+            raise Unsupported("kd-tree query with k > 1 and a distance upper bound")
         # eps > 0 (scipy: "the k-th returned value is guaranteed to be no further than (1+eps) times
         # the distance to the real k-th nearest neighbor"): the weaker guarantee is what is assumed.
         slack = (1.0 + float(eps)) ** 2
@@ -73,9 +75,22 @@ class SymKDTree(Proxy):
             n = self.n
             S.assume(Forall((nq,), lambda q: and_(ia(q) >= 0, ia(q) < n), name="kd.query.index_in_range"))
             S.assume(Forall((nq, n), lambda q, j: self.d2(xq(q), ia(q)) <= (self.d2(xq(q), j) if slack == 1.0 else slack * self.d2(xq(q), j)), name="kd.query.nearest" if slack == 1.0 else "kd.query.approx_nearest"))
-            dist = new_array((nq,), lambda i: spec_sqrt(self.d2(xq(i[0]), ia(i[0]))), "f")
+            ub = distance_upper_bound
+            if not is_sym(ub) and ub == float("inf"):
+                dist = new_array((nq,), lambda i: spec_sqrt(self.d2(xq(i[0]), ia(i[0]))), "f")
+                c.ghost.setdefault("kd.query", []).append((self, nq, xq, 1, idx))
+                return dist, idx
+            # distance_upper_bound (scipy: "return only neighbors within this distance"; the comparison is STRICT):
+            # a query point whose nearest neighbour is not strictly closer gets distance inf and index n. inf is a
+            # fresh real above the bound (all that comparisons with finite thresholds up to the bound can observe)
+            big = c.fresh("kd_inf", "real")
+            c.assume(and_(big > ub, big > 0))
+            near = lambda q: spec_sqrt(self.d2(xq(q), ia(q))) < ub  # noqa: E731
+            dist = new_array((nq,), lambda i: ite(near(i[0]), spec_sqrt(self.d2(xq(i[0]), ia(i[0]))), big), "f")
+            idx2 = new_array((nq,), lambda i: ite(near(i[0]), ia(i[0]), n), "i")
+            c.used_prelude.add("cKDTree.query(distance_upper_bound): strict bound, misses reported as (inf, n)")
             c.ghost.setdefault("kd.query", []).append((self, nq, xq, 1, idx))
-            return dist, idx
+            return dist, idx2
         dist, idx = self._query_k(nq, xq, k)
         c.ghost.setdefault("kd.query", []).append((self, nq, xq, k, idx))
         return dist, idx
